@@ -35,6 +35,7 @@ def run(chk, replay):
     if not quick:
         chk.model("MC_Claim4.tla", "MC_Claim4.cfg", timeout=3000)
     scs = gen_claim.grid2(chk.tier) + gen_claim.bitwalk(chk.tier) + [gen_claim.claim_scenario(chk.seed * 15485863 + i) for i in range(250 if quick else 4000)]
+    scs = scs + gen_claim.reactive(chk.tier)       # applications that call into their CA from inside a delivery callback
     traces = [scen_claim.run(sc)[0] for sc in scs]
     chk.validate("ClaimTrace.tla", "ClaimTrace.cfg", traces, "main", nontrivial=nontrivial)
 
